@@ -18,6 +18,7 @@ import (
 
 	"github.com/ipfs/boxo/keystore"
 	ci "github.com/libp2p/go-libp2p/core/crypto"
+	cipb "github.com/libp2p/go-libp2p/core/crypto/pb"
 
 	"verifharness/vh"
 )
@@ -137,8 +138,10 @@ func gen(r *vh.Rand, tier string, n int, emit func(vh.Case)) {
 				c.Ops = append(c.Ops, "has "+pick())
 			case k < 82:
 				c.Ops = append(c.Ops, "del "+pick())
-			case k < 92:
+			case k < 90:
 				c.Ops = append(c.Ops, "list")
+			case k < 92:
+				c.Ops = append(c.Ops, "putbad "+pick())
 			case k < 94:
 				c.Ops = append(c.Ops, "race "+pick()+" "+vh.Pick(rr, keys)+" "+vh.Pick(rr, keys))
 			default:
@@ -151,6 +154,13 @@ func gen(r *vh.Rand, tier string, n int, emit func(vh.Case)) {
 }
 
 // ---------------------------------------------------------------- executor
+
+// sealedKey is a private key whose material cannot be exported (HSM-style wrapper): Raw fails, so
+// ci.MarshalPrivateKey fails and a Put of it must fail without leaving anything behind.
+type sealedKey struct{ ci.PrivKey }
+
+func (sealedKey) Raw() ([]byte, error) { return nil, errors.New("sealed key: material not exportable") }
+func (k sealedKey) Type() cipb.KeyType { return k.PrivKey.Type() }
 
 func errKind(err error) string {
 	switch {
@@ -257,6 +267,13 @@ func scan(root string) (inside []string, outside []string, bad []string) {
 	return
 }
 
+// a valid marshalled ed25519 key (seed bytes 1), wrapped by sealedKey in putbad
+var keysHexForBad = func() string {
+	k, _, _ := ci.GenerateEd25519Key(bytes.NewReader(bytes.Repeat([]byte{1}, 64)))
+	b, _ := ci.MarshalPrivateKey(k)
+	return vh.Hex(b)
+}()
+
 func exec(c vh.Case, o *vh.Out) {
 	root, err := os.MkdirTemp("", "verif-c40-")
 	if err != nil {
@@ -271,7 +288,7 @@ func exec(c vh.Case, o *vh.Out) {
 	caseInQuant := true
 	for _, line := range c.Ops {
 		f := strings.Fields(line)
-		if len(f) > 1 && f[0] != "cfg" && f[0] != "race" && !strings.HasPrefix(f[0], "plant") && !inQuant(string(vh.UnHex(f[1]))) {
+		if len(f) > 1 && f[0] != "cfg" && f[0] != "race" && f[0] != "putbad" && !strings.HasPrefix(f[0], "plant") && !inQuant(string(vh.UnHex(f[1]))) {
 			caseInQuant = false
 		}
 	}
@@ -427,6 +444,45 @@ func exec(c vh.Case, o *vh.Out) {
 				o.Fail("bad-filename", "after %s %q: %v", f[0], name, bad)
 			}
 			o.Emit("fs=%s mem=%s", rf, rm)
+		case "putbad":
+			// Put of a key that cannot be marshalled, FS keystore only (MemKeystore stores key objects and
+			// never marshals): must fail and change nothing - directory entry before == after
+			name := string(vh.UnHex(f[1]))
+			inner, _ := ci.UnmarshalPrivateKey(vh.UnHex(keysHexForBad))
+			var before, after string
+			statOf := func() string {
+				if name == "" || encLen(len(name)) > nameMax {
+					return "n/a"
+				}
+				st, err := os.Lstat(filepath.Join(root, "ks", fileName([]byte(name))))
+				if err != nil {
+					return "absent"
+				}
+				return fmt.Sprintf("%v/%d", st.Mode(), st.Size())
+			}
+			before = statOf()
+			err := fsk.Put(name, sealedKey{inner})
+			after = statOf()
+			res := errKind(err)
+			if err == nil {
+				res = "ok"
+				o.Fail("unmarshalable-key-accepted", "putbad %q returned nil", name)
+			}
+			if before != after {
+				o.Fail("failed-put-left-file", "putbad %q = %s changed the directory entry: %s -> %s", name, res, before, after)
+			}
+			o.Kind("putbad")
+			_, outside, bad := scan(root)
+			var want []string
+			for _, v := range plantedOutside {
+				want = append(want, v)
+			}
+			sort.Strings(want)
+			if strings.Join(outside, ";") != strings.Join(want, ";") {
+				o.Fail("outside-keystore-dir", "after putbad %q: %v", name, outside)
+			}
+			_ = bad
+			o.Emit("fs=%s", res)
 		case "race":
 			// two goroutines Put the same name into the FS keystore at once (8 rounds, state restored after
 			// each): never both succeed, and the key that reports success is the one stored
